@@ -11,14 +11,14 @@ GENERATORS = ['gen_font',            # Model/Font.v (reused for glyphs_from_u8_d
 COQ_TARGETS = ['Props/C03.vo', 'Run/RunC03.vo', 'Run/RunC03L.vo']
 PROPS_MODULE = 'Props.C03'
 THEOREMS = ['cost_bound', 'cost_bound_sp', 'prim_ticks_bound', 'ticks_bound_scroll', 'tick_version_same_state', 'fixed_arms_only', 'sp_arms_only',
-            'rep_clamped', 'rep_linear_before_fix', 'rep_before_fix_refuted', 'hexmacro_refuted', 'macro_recursion_before_fix_refuted', 'sixel_repeat_linear', 'sixel_raster_before_fix_refuted', 'sixel_raster_refused',
+            'rep_clamped', 'rep_linear_before_fix', 'rep_before_fix_refuted', 'hexmacro_before_fix_refuted', 'macro_recursion_before_fix_refuted', 'sixel_repeat_linear', 'sixel_raster_before_fix_refuted', 'sixel_raster_refused',
             'avatar_repeat_bound', 'glyph_iters_bound', 'window_ticks_bound',
             # extension (a): allocation
             'alloc_version_same_state', 'alloc_counts_growth', 'alloc_dominates', 'alloc_bound', 'alloc_bound_state', 'alloc_bound_sp', 'alloc_bound_dollar',
             # extension (b): weighted iteration totals, rectangle clip
             'ticks_bound', 'ticks_bound_sp', 'rect_clip', 'ticks_bound_dollar', 'ticks_bound_rqcra', 'dollar_arms_only', 'rqcra_arm_only',
             # extension (c): hex-macro repeat groups, macro replay
-            'hexmacro_bound', 'hexmacro_bound_cond', 'hexmacro_linear', 'macro_replay_bound', 'macro_replay_total', 'macro_recursion_bounded', 'macro_limit_conservative',
+            'hexmacro_bound', 'hexmacro_refused', 'hexmacro_bound_before_fix', 'hexmacro_bound_cond_before_fix', 'hexmacro_linear_before_fix', 'macro_replay_bound', 'macro_replay_total', 'macro_recursion_bounded', 'macro_limit_conservative',
             'macro_invokes_half', 'macro_table_ok',
             # extension (d): sixel decoder
             'sixel_ticks_bound', 'sixel_alloc_bound', 'sixel_image_bound', 'sixel_ticks_bound_abs', 'sixel_alloc_bound_abs', 'sixel_image_bound_abs', 'sixel_limit_tied',
@@ -259,16 +259,14 @@ def special_cases(ctx):
     seq('macro-text', E + b'P2147483647;0;0!zX' + ST + E + b'[2147483647*z')
     seq('macro-text', E + b'P1;0;0!z' + E + b'[1*z' + ST + E + b'[1*z')          # invoked inside the definition, not recorded
     # hex macros, repeat groups of every magnitude
-    for n in [0, 1, 2000, 65536, 1000000, 2147483647]:
-        big = n >= 1000000
-        huge = n >= 2147483647
-        seq('hexmacro-repeat', E + b'P1;0;1!z!%d;41;' % n + ST, is_slow=huge)
-        if not huge or not quick:
-            seq('hexmacro-repeat', E + b'P1;0;1!z!%d;4142' % n + ST, is_slow=huge)                 # unterminated group
-        if not big:
-            seq('hexmacro-repeat', E + b'P1;0;1!z!%d;41;' % n + ST + E + b'[1*z')
-        seq('hexmacro-repeat', E + b'P1;0;1!z!%d;;' % n + ST + E + b'[1*z')                       # empty group: no work per iteration
-    seq('hexmacro-repeat', E + b'P1;0;1!z!1000000;41;' + ST + E + b'[1*z')
+    # (regression inputs of the former known class hexmacro-repeat: ordinary cases since MAX_MACRO_SIZE = 65536)
+    for n in [0, 1, 2000, 32768, 32769, 65535, 65536, 65537, 1000000, 2147483647]:
+        seq('hexmacro-repeat', E + b'P1;0;1!z!%d;41;' % n + ST)
+        seq('hexmacro-repeat', E + b'P1;0;1!z!%d;4142' % n + ST)                                   # unterminated group
+        seq('hexmacro-repeat', E + b'P1;0;1!z!%d;41;' % n + ST + E + b'[1*z')
+        seq('hexmacro-repeat', E + b'P1;0;1!z!%d;;' % n + ST + E + b'[1*z')                       # empty group: nothing appended, whatever the count
+        seq('hexmacro-repeat', E + b'P1;0;1!z!%d;41;!%d;42;!%d;43' % (n, n, n) + ST + E + b'[1*z')      # the groups add up
+        seq('hexmacro-repeat', E + b'P1;0;1!z41!%d;42;43' % n + ST + E + b'[1*z')
     seq('hexmacro', E + b'P1;0;1!z41424344' + ST + E + b'[1*z')
     seq('hexmacro', E + b'P1;0;1!z!3;!3;41;;' + ST + E + b'[1*z')
     seq('hexmacro', E + b'P1;0;1!zZZ' + ST)
@@ -279,7 +277,8 @@ def special_cases(ctx):
     seq('macro-recursion', E + b'P1;0;1!z411B5B312A7A' + ST + E + b'[1*z')
     seq('macro-recursion', E + b'P1;0;1!z' + b'1B5B312A7A' * 4 + ST + E + b'[1*z')
     seq('macro-recursion', E + b'P1;0;1!z!9;411B5B312A7A;' + ST + E + b'[1*z')
-    seq('macro-recursion', E + b'P1;0;1!z!65536;1B5B312A7A;' + ST + E + b'[1*z', is_slow=True)      # (the definition itself is the known class hexmacro-repeat)
+    seq('macro-recursion', E + b'P1;0;1!z!65536;1B5B312A7A;' + ST + E + b'[1*z')      # (5 x 65536 characters: refused by MAX_MACRO_SIZE)
+    seq('macro-recursion', E + b'P1;0;1!z!13107;1B5B312A7A;' + ST + E + b'[1*z')      # (65535 characters: the largest accepted self-invoking body)
     seq('macro-recursion', E + b'P1;0;1!z1B501B5B312A7A' + ST + E + b'[1*z' + ST)                    # recursion through the invocation inside a DCS string
     # nesting without recursion: macro 2 replays macro 1 three times
     seq('macro-nesting', E + b'P1;0;1!z41' + ST + E + b'P2;0;1!z' + b'1B5B312A7A' * 2 + ST + E + b'[2*z')
@@ -854,7 +853,8 @@ def correspondence(ctx):
             old.append(i)
     exprs_old = ['run_seq_old %d %d %s %s' % (meta[i][2], meta[i][3], zl(meta[i][4]), zl(meta[i][5])) for i in old]
     # other models
-    hexs = [b'!5;4142;43', b'41', b'!0;41;', b'!2000;4142;', b'!3;!4;41;;', b'4', b'!12', b'!7;41', b'zz', b'!3;41;!4;42;43'] + \
+    hexs = [b'!5;4142;43', b'41', b'!0;41;', b'!2000;4142;', b'!3;!4;41;;', b'4', b'!12', b'!7;41', b'zz', b'!3;41;!4;42;43',
+            b'!65537;41;', b'!2147483647;41;', b'!65537;41', b'!32769;4142;', b'!2147483647;;41', b'41!65536;42;', b'!2147483647;41;42', b'!70000;;!70000;41;'] + \
            [b'!%d;%s;%s' % (rng.choice([0, 1, 7, 300, 2000]), b'4A' * rng.randint(0, 4), b'4B' * rng.randint(0, 3)) for _ in range(20)]
     glyphs = [(hh, nn) for hh in [0, 1, 8, 14, 16, 32, 255] for nn in [0, 1, 15, 16, 17, 4096, 8192]]
     extra_exprs = ['run_hex %s' % zl(s) for s in hexs] + ['run_glyphs %d %d' % g for g in glyphs]
@@ -953,8 +953,8 @@ def correspondence(ctx):
         m = model[base2 + j]; r = impl_ext[j]
         if m is None or len(m) < 6: continue
         ext_n += 1
-        if m[1] > m[5] * (1 + m[4]) or m[2] > m[5] * (1 + m[4]):
-            dis.append({'case': hex_cases2[j], 'impl': None, 'model': m, 'what': 'hex macro counter / length exceed zlen s * (1 + hex_reps): hexmacro_bound does not hold for this model value'}); continue
+        if m[1] > m[5] + 65536 or m[2] > 65536:
+            dis.append({'case': hex_cases2[j], 'impl': None, 'model': m, 'what': 'hex macro counter / length exceed zlen s + MAX_MACRO_SIZE / MAX_MACRO_SIZE: hexmacro_bound does not hold for this model value'}); continue
         if m[0] == 1:
             if r is None or r[0] != 'ok':
                 dis.append({'case': hex_cases2[j], 'impl': r, 'model': m, 'what': 'invocation of an accepted hex macro did not return'}); continue
@@ -1087,8 +1087,8 @@ LEVEL_TEXT = ('PARTIAL (by design: time and memory are runtime facts). Machine-c
               'at most 8(n+1) x measure^2 weighted inner iterations (ticks_bound, ticks_bound_sp/_dollar/_rqcra; the rectangle functions are clipped to the screen: rect_clip) and '
               'allocates at most 8(n+1) x measure rows + cells (alloc_bound, alloc_bound_sp/_dollar; threaded allocation counters that provably dominate the growth of the line table: '
               'alloc_dominates, alloc_counts_growth) - unconditionally for SU SD ICH DCH IL DL SL SR CVT CBT CUU CUD ECH ED EL SGR DECFRA DECERA DECSERA DECRQCRA window resize after the ten clamp fixes; '
-              'REP after its repair (at most width x height copies: rep_clamped; old loop: rep_before_fix_refuted) is inside cost_bound and ticks_bound, not yet inside alloc_bound. Conditional bounds with the known class as the explicit parameter: hex-macro repeat groups (hexmacro_bound: '
-              'work and expansion <= (1 + largest repeat count) x length), macro replay (macro_replay_bound: geometric in the nesting depth; recursion refuted), the sixel decoder '
+              'REP after its repair (at most width x height copies: rep_clamped; old loop: rep_before_fix_refuted) is inside cost_bound and ticks_bound, not yet inside alloc_bound. Hex-macro repeat groups after the size-limit fix (hexmacro_bound, unconditional: work <= length + MAX_MACRO_SIZE, stored macro <= MAX_MACRO_SIZE = 65536 characters; '
+              'before the fix: hexmacro_bound_before_fix, (1 + largest repeat count) x length), macro replay (macro_replay_bound: geometric in the nesting depth; recursion refuted), the sixel decoder '
               '(sixel_ticks_bound: iterations <= payload + executed repeat counts; sixel_alloc_bound / sixel_image_bound: bytes <= 4 max(T, declared width) x max(6T+6, declared height); '
               'after the size-limit fix also without any number of the payload: sixel_ticks_bound_abs <= length x 4097, sixel_alloc_bound_abs / sixel_image_bound_abs <= 4 x 4096 x 4096 = 64 MiB), '
               'the cell loops of the binary loaders BIN ADF XBin Tundra IDF (load_ticks_bound_*: cells stored <= bytes (x 65 for compressed XBin) + declared run lengths; rows x cells of the loaded layer). '
@@ -1099,6 +1099,6 @@ LEVEL_NOTE = ('Theorems speak about iteration/allocation counts of the model; th
               'and stage S (absolute limits on the real code: single control functions, the same in prepared states, and probe suffixes on the state they leave). '
               'Extension: stage C also compares the threaded allocation counter and instances of alloc_bound / ticks_bound on every CSI case, the rectangle functions, '
               'characters printed by hex macros and nested macros (vs hexmacro_bound / macro_replay_bound), rows / bytes of decoded sixel images, and width / height / rows / cells of '
-              'buffers loaded from generated BIN ADF XBin Tundra IDF files. Known classes: hex-macro repeat, declared sizes of loaders.')
+              'buffers loaded from generated BIN ADF XBin Tundra IDF files. Known classes: declared sizes of loaders, cursor row of the text loaders.')
 TECHNIQUE = ('Coq proof over tick-annotated model functions (arithmetic bounds from the C09 invariant) + exhaustive control-function table under process limits, '
              'on a fresh screen and on prepared states, with probe suffixes and terminal-state comparison against the model')
